@@ -1,6 +1,8 @@
 use tevec::prelude::*;
 fn main() {
-    let v = vec![f64::NAN, 3., f64::NAN];
-    println!("quantile 0.5 of [NaN,3,NaN] = {:?}", v.vquantile(0.5, QuantileMethod::Linear));
-    println!("median = {:?}", v.vmedian());
+    let a = vec![f64::NAN, 2., 3., 5.];
+    let b = vec![1., 2., 4., 4.];
+    let r = std::panic::catch_unwind(|| { let r: Vec<f64> = a.ts_vcov(&b, 3, Some(0)); r });
+    println!("ts_vcov mp=0: {:?}", r.map_err(|_| "PANIC"));
+    let r: Vec<f64> = a.ts_vcov(&b, 3, Some(1)); println!("ts_vcov mp=1: {:?}", r);
 }
